@@ -454,3 +454,53 @@ func ruleValidationSiblings(c *Ctx, r *R) {
 	})
 	r.ok(okFormula && usesD, "xtime.JitterTicker.schedule|interval-formula", sch.Pos(), "the next interval must be d + rand[0, 2·jitter) − jitter (so it lies in [d − jitter, d + jitter))")
 }
+
+var _ = late(func() {
+	p := properties["C20"]
+	p.Rules = append(p.Rules, &Rule{ID: "C20.store-before-schedule", Floor: 2, Clause: "wherever d or jitter are stored and schedule() is called in the same function, every such store precedes the call (schedule computes the next interval from both fields)",
+		Run: func(c *Ctx, r *R) {
+			sch := c.fn("xtime.JitterTicker.schedule")
+			if sch == nil {
+				r.undecided("xtime.JitterTicker.schedule|missing", token.NoPos, "anchor not found")
+				return
+			}
+			for _, fn := range c.funcsOfPkg("xtime") {
+				var calls []*ssa.Call
+				instrs(fn, func(b *ssa.BasicBlock, i int, in ssa.Instruction) {
+					if call, ok := in.(*ssa.Call); ok {
+						if cal := staticCallee(&call.Call); cal == sch {
+							calls = append(calls, call)
+						}
+					}
+				})
+				if len(calls) == 0 {
+					continue
+				}
+				name := c.nameOf(fn)
+				k := 0
+				instrs(fn, func(b *ssa.BasicBlock, i int, in ssa.Instruction) {
+					st, ok := in.(*ssa.Store)
+					if !ok {
+						return
+					}
+					fa, ok := st.Addr.(*ssa.FieldAddr)
+					if !ok || !isNamedType(fa.X.Type(), "xtime", "JitterTicker") {
+						return
+					}
+					f := fieldName(fa.X.Type(), fa.Field)
+					if f != "d" && f != "jitter" {
+						return
+					}
+					k++
+					good := true
+					for _, call := range calls {
+						before := st.Block().Dominates(call.Block()) && (st.Block() != call.Block() || idxIn(st) < idxIn(call))
+						if !before {
+							good = false
+						}
+					}
+					r.ok(good, name+"|store:"+f+"#"+itoa(k), st.Pos(), "t."+f+" is stored after schedule() was called: the first interval after this call is computed from the new and the old parameters mixed (a tick can arrive far earlier than d - jitter)")
+				})
+			}
+		}})
+})
